@@ -234,6 +234,7 @@ class GraphColoringRegisterAllocator:
             frame: The frame to perform register allocation on.
         """
         spill_rounds = 0
+        self.spill_temps = set()
 
         self.logger.debug("Starting iterative coloring")
         while True:
@@ -672,10 +673,11 @@ class GraphColoringRegisterAllocator:
         graph any ways.
         """
 
-        # TODO: select a node which is certainly not a node that was
-        # introduced during spilling?
         # Select to be spilled variable:
-        # Select node with the lowest priority:
+        # Select node with the lowest priority. Nodes which were introduced
+        # by spill code have very short live ranges: spilling them again
+        # gains nothing (and might go on forever), so only select them
+        # when there is no other candidate.
         p = []
         for n in self.spill_worklist:
             assert not n.is_colored
@@ -683,7 +685,8 @@ class GraphColoringRegisterAllocator:
             u = sum(len(self.frame.ig.uses(t)) for t in n.temps)
             priority = (u + d) / n.degree
             self.logger.debug("%s has spill priority=%s", n, priority)
-            p.append((n, priority))
+            is_spill_temp = all(t in self.spill_temps for t in n.temps)
+            p.append((n, (is_spill_temp, priority)))
         node = min(p, key=lambda x: x[1])[0]
 
         # Potential spill node, place in simplify worklist:
@@ -719,9 +722,11 @@ class GraphColoringRegisterAllocator:
                 if self.verbose:
                     self.reporter.message(f"Replace {tmp} by {vreg2}")
                 instruction.replace_register(tmp, vreg2)
+                self.spill_temps.add(vreg2)
 
                 if instruction.reads_register(vreg2):
                     code = self.spill_gen.gen_load(self.frame, vreg2, slot)
+                    self.mark_spill_temps(code)
                     if self.verbose:
                         self.reporter.message(
                             f"Load code before: {list(map(str, code))}"
@@ -730,6 +735,7 @@ class GraphColoringRegisterAllocator:
 
                 if instruction.writes_register(vreg2):
                     code = self.spill_gen.gen_store(self.frame, vreg2, slot)
+                    self.mark_spill_temps(code)
                     if self.verbose:
                         self.reporter.message(
                             f"Store code after: {list(map(str, code))}"
@@ -738,6 +744,13 @@ class GraphColoringRegisterAllocator:
 
                 if self.verbose:
                     self.reporter.dump_frame(self.frame)
+
+    def mark_spill_temps(self, code):
+        """Remember the virtual registers created by spill code"""
+        for instruction in code:
+            for register in instruction.registers:
+                if not register.is_colored:
+                    self.spill_temps.add(register)
 
     def assign_colors(self):
         """Add nodes back to the graph to color it.
